@@ -2,6 +2,8 @@ mod checks;
 mod compile;
 mod dap;
 mod layer_a;
+mod layer_b;
+mod mtprog;
 mod linetab;
 mod ns;
 mod orch;
